@@ -77,6 +77,8 @@ static int g_resuming;
 static int g_cur_sample = -1;
 static struct vh_rng g_sample_rng;
 static int g_is_child;
+static char g_errpath[4096];
+const char* vh_errpath(void) { return g_errpath; }
 
 int vh_counter_id(const char* name) {
   for (int i = 0; i < S->ncounters; i++)
@@ -489,6 +491,7 @@ static void add_crash_violation(const char* key, const char* msg, uint64_t case_
 
 static void child_main(const struct vh_driver* d, uint64_t resume_after, int resuming, const char* errpath) {
   g_is_child = 1;
+  snprintf(g_errpath, sizeof g_errpath, "%s", errpath);
   int fd = open(errpath, O_WRONLY | O_CREAT | O_TRUNC, 0644);
   if (fd >= 0) { dup2(fd, 2); close(fd); }
   g_case_no = 0;
